@@ -79,6 +79,14 @@ func checkC03(c *Ctx) *report.Result {
 			sort.Strings(want)
 			r.Ob("M-sched", strings.Join(got, ";") == strings.Join(want, ";"), name+" data accesses", where,
 				fmt.Sprintf("row %v performs %v, documented %v", row.SubNames, got, want))
+			var conditional []string
+			for _, a := range row.Acc {
+				if a.Cond {
+					conditional = append(conditional, accKey(a.Cycle, a.Kind, a.Class))
+				}
+			}
+			r.Ob("M-sched", len(conditional) == 0, name+" accesses happen on every path", where,
+				fmt.Sprintf("accesses %v are performed only under a data-dependent branch of their row entry; a documented access happens whatever the data are (the addressed hardware sees it)", conditional))
 			r.Ob("M-operand", immOK && imm == doc.Imm, name+" operand fetches", where,
 				fmt.Sprintf("%d operand bytes fetched through pc (consecutive, in order: %v), documented %d", imm, immOK, doc.Imm))
 			if len(doc.Mem) > 0 && (k%29 == 0) {
